@@ -537,6 +537,18 @@ class Style:
             return w.title()
         return "".join(c.upper() if self.rng.random() < 0.5 else c for c in w)
 
+    def end_kw(self, what):
+        """`end what` with the glue of the style: `end what`, `endwhat` or `end  what` (the caller appends the name)"""
+        k = self.kw
+        st = self.end_style
+        if self.rng is not None and not self.plain and self.rng.random() < 0.3:
+            st = self.rng.choice(["full", "joined", "spaced"])
+        if st == "joined":
+            return f"{k('end')}{k(what)}"
+        if st == "spaced":
+            return f"{k('end')}  {k(what)}"
+        return f"{k('end')} {k(what)}"
+
     def end(self, what, name=None, allow_bare=True):
         k = self.kw
         st = self.end_style
@@ -731,8 +743,7 @@ class Renderer:
                 ln = self.L(h + [(b.name, b, "bind-decl"), " => ", (b.target.name, b.target, "bind-target")], "binding", m)
                 self.decl_pos(b, ln, col)
                 self.outline.append(Node("binding", b.name, t.name, self.cur, ln, ln))
-        el = self.L([pad, self.st.end("type", None, allow_bare=False), " ", (t.name, t, "typeend")] if self.st.end_style in ("full", "spaced") and False else
-                    [pad, k("end") + " " + k("type") + " ", (t.name, t, "typeend")], "type-close", m)
+        el = self.L([pad, self.st.end_kw("type") + " ", (t.name, t, "typeend")], "type-close", m)
         self.outline.append(Node("type", t.name, m.name, self.cur, sl, el))
 
     def scope(self, s, ind, container=None):
@@ -800,7 +811,7 @@ class Renderer:
                         parts.append(", ")
                     parts.append((t.name, t, "modproc"))
                 self.L(parts, "modproc", s)
-                el = self.L([p2, k("end") + " " + k("interface") + " ", (e.name, e, "generic-end")], "iface-close", s)
+                el = self.L([p2, st.end_kw("interface") + " ", (e.name, e, "generic-end")], "iface-close", s)
                 self.outline.append(Node("interface", e.name, s.name, self.cur, sl, el))
                 if e.vis:
                     self.L([p2, k(e.vis) + " :: ", (e.name, e, "vis-stmt")], "vis-stmt", s)
